@@ -16,6 +16,8 @@ import (
 	"google.golang.org/protobuf/proto"
 
 	"go.6river.tech/mmmbbb/actions"
+	"go.6river.tech/mmmbbb/grpc/pubsubpb"
+	"go.6river.tech/mmmbbb/services"
 
 	"verif/harness/evd"
 	"verif/harness/reqgen"
@@ -137,6 +139,36 @@ func TestC16state(t *testing.T) {
 				col.Violation("error-without-status:"+rq.Sig(), fmt.Sprintf("%s returned a non-nil error that carries status OK: %v", rq.RPC, callErr), nil)
 			}
 			col.Case(evd.FP(rq.Sig()), true)
+		}
+		// requests that are fine one by one can leave the maintenance jobs something
+		// they fail on (a deleted topic whose messages are not reclaimed yet makes the
+		// topic job fail on the foreign key). A failed job iteration must leave the
+		// server as usable as before: the next requests are answered, promptly
+		if cfg.Mine(5) {
+			x := "projects/p/topics/zz-maintenance"
+			must(e.Pub.CreateTopic(e.Ctx, &pubsubpb.Topic{Name: x}))
+			must(e.Pub.Publish(e.Ctx, &pubsubpb.PublishRequest{Topic: x, Messages: []*pubsubpb.PubsubMessage{{Data: []byte(`{"m":1}`)}}}))
+			must(e.Pub.DeleteTopic(e.Ctx, &pubsubpb.DeleteTopicRequest{Topic: x}))
+			time.Sleep(3 * time.Second)
+			failed := 0
+			for _, job := range []string{"prune-deleted-topics", "prune-deleted-subscriptions", "prune-deleted-topics"} {
+				// (an age threshold of zero means "the default", an hour)
+				if _, err := services.VerifPruneRunOnce(e.Actor("job"), e.Client, job, actions.PruneCommonParams{MinAge: time.Second, MaxDelete: 100}); err != nil {
+					failed++
+				}
+			}
+			col.Add("ev_failed_maintenance_iterations_before_the_probe", int64(failed))
+			t0 := time.Now()
+			wall := time.Now
+			w0 := wall()
+			c, cancel := context.WithTimeout(e.Ctx, 30*time.Second)
+			_, perr := e.Pub.CreateTopic(c, &pubsubpb.Topic{Name: "projects/p/topics/zz-after-maintenance"})
+			cancel()
+			_ = t0
+			if perr != nil {
+				col.Violation("wedged-after-failed-maintenance", fmt.Sprintf("after %d failed iterations of the topic pruner (a deleted topic still has a message) CreateTopic is answered %v (%v of virtual time later)", failed, perr, wall().Sub(w0)), map[string]any{"failed_iterations": failed})
+			}
+			errs++
 		}
 	})
 	col.Add("relevant_events", errs)
